@@ -6,20 +6,37 @@ import tempfile
 from . import common as C
 
 
+_LAST = {'path': None, 'text': None}
+
+
 @contextlib.contextmanager
 def tmpfile(text, suffix='.txt'):
+    """The instance file handed to the implementation.  ONE path per process, rewritten only when the content
+    changes: successive cases therefore reuse the same path with different contents, and the same unchanged file
+    is read again when two consecutive cases share their text — which is how a per-path or per-file cache that
+    ignores the content or an option would be exposed."""
     d = os.environ.get('VERIF_WORK') or C.WORKROOT
     os.makedirs(d, exist_ok=True)
-    fd, path = tempfile.mkstemp(suffix=suffix, dir=d)
-    try:
-        with os.fdopen(fd, 'w', newline='') as fh:
+    path = os.path.join(d, 'instance_%d%s' % (os.getpid(), suffix))
+    if _LAST['path'] != path or _LAST['text'] != text or not os.path.exists(path):
+        with open(path, 'w', newline='') as fh:
             fh.write(text)
-        yield path
-    finally:
+        _LAST['path'], _LAST['text'] = path, text
+    yield path
+
+
+import atexit as _atexit
+
+
+def _cleanup():
+    if _LAST['path']:
         try:
-            os.unlink(path)
+            os.unlink(_LAST['path'])
         except OSError:
             pass
+
+
+_atexit.register(_cleanup)
 
 
 def inst_opts(na, twopl, pc=False):
@@ -44,10 +61,11 @@ def snap_model(m):
 
 
 def import_snapshot(text, na, twopl):
-    from matchingproblems.solver import fileIO
+    """The instance the solver works on: through the public route Solver(args).model."""
+    from matchingproblems.solver.solver import Solver
     with tmpfile(text) as path:
-        m = fileIO.import_model(path, inst_opts(na, twopl))
-    return snap_model(m)
+        s = Solver(['-f', path, '-na', str(na)] + (['-twopl'] if twopl else []))
+    return snap_model(s.model)
 
 
 def cpair(p):
